@@ -136,6 +136,13 @@ RECURSIVE Ev(_, _, _), Ev0(_, _, _), EvArgs(_, _, _), LA(_, _, _), EvFn(_, _, _)
 \* (Expression.matches catches it): st.unwind is set where it is raised, nothing is evaluated and no composite acts while it is
 \* set, and the component boundary (Fold, LA) clears it; the component votes negative and one error is pending for Flush.
 Raise(st) == [st EXCEPT !.unwind = TRUE, !.pending = @ + 1]
+\* "the line does not match (unless validation-mode says match)": with validation-mode: match a component in which an error arose
+\* votes positive - unless the error is handed to the caller, which ends the run
+\* (IMPL detail of the vote, only visible in the per-component votes of the line on which the run ends: an argument-validation
+\* error that is handed to the caller is raised before the vote is taken; an exception leaves the vote open, which counts as positive)
+VmSays(ctx, f) == f \in DOMAIN ctx.vm /\ ctx.vm[f]
+MatchOnError(ctx) == VmSays(ctx, "match")
+MatchOnMismatch(ctx) == VmSays(ctx, "match") /\ ~Eff(ctx.policy, ctx.vm, "raise")
 Unwound(st) == R(None, FALSE, st)
 
 \* arguments are evaluated left to right, all of them, before the function decides
@@ -148,7 +155,7 @@ EvArgs(args, st, ctx) ==
 
 \* Expression.matches: the component's vote; an exception beneath it makes it False and ends here
 EvComp(comp, st, ctx) == LET r == Ev(comp, st, ctx)
-                         IN IF r.st.unwind THEN R(None, FALSE, [r.st EXCEPT !.unwind = FALSE]) ELSE r
+                         IN IF r.st.unwind THEN R(None, MatchOnError(ctx), [r.st EXCEPT !.unwind = FALSE]) ELSE r
 
 \* Qualified.line_matches: the onmatch look-ahead over all OTHER top-level components, in order,
 \* memoising their votes, stopping at the first negative, raising the match count on success.
@@ -459,7 +466,14 @@ Ev0(node, st, ctx) ==
     [] node.k = "err" ->
          LET v == HdrRaw(node.args[1], st)
          IN IF IsNone(v) \/ NumLike(v) THEN R(VFloat(NumOf(v) + 1), ctx.AND, st)
-            ELSE R(None, FALSE, [st EXCEPT !.pending = @ + 1])
+            \* validation-mode: match turns this one kind of error into a positive vote (ErrorPolicy!ErrLineMatches)
+            \* with validation-mode: match (and no raise) the mismatch is recorded without an exception: the function votes
+            \* positive, and validation-mode: stop / fail act at once (Function.matches), before the handler sees the error
+            ELSE LET now == MatchOnMismatch(ctx)
+                 IN R(None, MatchOnMismatch(ctx),
+                      [st EXCEPT !.pending = @ + 1,
+                                 !.stopped = @ \/ (now /\ VmSays(ctx, "stop")),
+                                 !.valid = IF now /\ VmSays(ctx, "fail") THEN FALSE ELSE @])
     [] OTHER -> R(None, TRUE, st)
 
 \* ---- Matcher.matches: fold the component votes left to right --------------------------------------
